@@ -38,6 +38,7 @@ is_6531_local (const char *start, const char *end)
 {
     int qpair = 0;
     int quote = 0;
+    int closed = 0; /* previous character closed a quoted-string */
     int ch;
     int prev = 0; /* previous index of non-ASCII character */
     utf8_decode_t u;
@@ -48,6 +49,13 @@ is_6531_local (const char *start, const char *end)
 
     utf8_decode_init (start, end - start, &u);
     while ((ch = utf8_decode_next (&u)) >= 0) {
+        /* a quoted-string is a whole word: only '.' may follow it */
+        if (closed) {
+            if (ch != '.')
+                return inverse(EEAV_LPART_MISPLACED_QUOTE);
+            closed = 0;
+        }
+
         /* skip non-ASCII characters */
         if (ch > 0x007f)
             continue;
@@ -102,7 +110,7 @@ is_6531_local (const char *start, const char *end)
             qpair = 0;
         else {
             switch (ch) {
-            case '"':   quote = 0; break;
+            case '"':   quote = 0; closed = 1; break;
             case '\\':  qpair = 1; break;
 #ifdef RFC6531_FOLLOW_RFC5322
             /* the next chars are not allowed in qtext: */
@@ -124,6 +132,7 @@ is_6531_local (const char *start, const char *end)
                     switch (ch) {
                         case '"':
                             quote = !quote;
+                            closed = 1;
                             break;
                         case '\n': case '\r': case '\t': case ' ':
                             break;
